@@ -6,7 +6,8 @@
 (* Units: BS units per block, consumers read C units at a time. Prototype for C09.          *)
 EXTENDS Integers, Sequences, FiniteSets, TLC
 CONSTANTS BS, C, MaxLen, Alphabet,
-          Repaired   \* TRUE: short validation reads count as mismatches, nothing is handed out beyond the signed size, data past it is an error
+          Repaired,  \* TRUE: short validation reads count as mismatches, nothing is handed out beyond the signed size, data past it is an error
+          EOFChecked \* TRUE: an end of file reported before the signed size is an error even when it comes WITH bytes (below)
 RECURSIVE SeqsUpTo(_)
 SeqsUpTo(n) == IF n = 0 THEN {<<>>} ELSE LET S == SeqsUpTo(n-1) IN S \cup {Append(s, a) : s \in {t \in S : Len(t) = n-1}, a \in Alphabet}
 Min(a,b) == IF a < b THEN a ELSE b
@@ -15,8 +16,11 @@ VARIABLES signed, actual,     \* signed content of the old file; what is really 
                               \* j*C, ReadFull of C units - how bsdiff's lrufile reads the old file: it may enter a block in its middle)
           off, cache,         \* reader offset; cache: block index -> "ok" | "bad" | "eof"
           remaining,          \* LimitReader budget (only for ranges)
-          outp, result        \* bytes delivered to the bowl; "run" | "ok" | "error"
-vars == <<signed,actual,mode,off,cache,remaining,outp,result>>
+          outp, result,       \* bytes delivered to the bowl; "run" | "ok" | "error"
+          eofd                \* environment: the inner pool's readers report io.EOF TOGETHER with the last bytes of a file
+                              \* (n > 0, err = EOF), as io.Reader allows. Every consumer then stops without another Read -
+                              \* so nothing comes back to validate the block that should follow.
+vars == <<signed,actual,mode,off,cache,remaining,outp,result,eofd>>
 S == Len(signed)
 NumBlocks(n) == (n + BS - 1) \div BS
 \* pwr.ComputeBlockSize(fileSize, blockIndex)
@@ -39,7 +43,7 @@ Init == /\ signed \in SeqsUpTo(MaxLen) /\ actual \in SeqsUpTo(MaxLen + 1)
         /\ (mode[1] >= 0 => mode[1] + mode[2] <= NumBlocks(S))
         /\ (mode[1] = -1 => S > 0)                      \* empty files are never transposed
         /\ off = StartOff /\ cache = <<>>
-        /\ remaining = OpSize /\ outp = <<>> /\ result = "run"
+        /\ remaining = OpSize /\ outp = <<>> /\ result = "run" /\ eofd \in BOOLEAN
 CacheGet(i) == IF \E k \in 1..Len(cache) : cache[k][1] = i THEN (CHOOSE k \in 1..Len(cache) : cache[k][1] = i) ELSE 0
 \* one Read(p) with len(p) = n as seen by the consumer
 Read == /\ result = "run"
@@ -57,8 +61,14 @@ Read == /\ result = "run"
                  ELSE IF v = "eof" \/ got = <<>> THEN result' = "ok" /\ UNCHANGED <<off,outp,remaining>>     \* io.EOF ends the copy normally
                  ELSE /\ outp' = outp \o got /\ off' = off + Len(got)
                       /\ remaining' = IF mode[1] = -1 THEN 0 ELSE remaining - Len(got)
-                      /\ result' = "run"
-        /\ UNCHANGED <<signed,actual,mode>>
+                      \* the inner read reached the end of the actual file and says so with these bytes: the copy loops, the
+                      \* LimitReader copy and ReadFull all end here. Short of the signed size that is an error (EOFChecked).
+                      /\ result' = IF eofd /\ off + Len(got) = Len(actual)
+                                   THEN (IF EOFChecked /\ off + Len(got) < S
+                                            /\ ~(mode[1] = -2 /\ remaining - Len(got) = 0)   \* io.ReadFull drops an error that comes with the bytes that fill its buffer
+                                         THEN "error" ELSE "ok")
+                                   ELSE "run"
+        /\ UNCHANGED <<signed,actual,mode,eofd>>
 Terminating == result # "run" /\ UNCHANGED vars
 Next == Read \/ Terminating
 Spec == Init /\ [][Next]_vars
